@@ -172,3 +172,16 @@ prop("C07", "fault_enumeration", (600, 12000),
      note="Gates without gate-level constraints (LookupGate, LookupTableGate, NoopGate) are covered by C08/C02. Restricted-input gates (BaseSum, Exponentiation, RandomAccess, Poseidon swap) use a layout assumption for the "
           "restricted wire; if it becomes stale the run is skipped, not failed. The degree check calls the library's gate_testing::test_low_degree under catch_unwind. CosetInterpolationGate degrees other than the default, PoseidonMdsGate "
           "and CosetInterpolationGate in real circuits come with the recursion circuits of C06.")
+
+prop("C05", "exploration", (300, 6000),
+     rule="one run = one FRI instance as a two-party system (1-4 oracles of 1-6 polynomials, blinding on/off, degree 2^2..2^8, 1-3 opening points, rate 1-3, cap height 0-3, "
+          "Fixed / ConstantArityBits / MinSize schedules, queries so that q*lde_bits >= 64, Poseidon/Keccak; 1/3 of runs also the batched variant over 2-3 polynomial degrees). "
+          "Cases: honest proof accepted (openings computed by the reference evaluator); arity-schedule invariants; wrong claimed opening (verifier given a lie under re-derived AND fixed challenges, and a prover that absorbs the lie); "
+          "first layer committed to another function; a function of twice the degree folded honestly; insufficient grinding (prover without, verifier with proof of work; legitimately lucky responses counted trivial); "
+          "+1 edits at first/last/random positions of every proof component under FIXED challenges (leaves, siblings, coset evaluations, final polynomial; all entries of a commit cap) and under re-derived challenges; "
+          "for the batched variant wrong openings per group and element edits under fixed challenges. Every deviation must be rejected. distinct = (instance, deviation); all non-trivial except lucky grinding",
+     technique="deterministic simulation: FRI prover/verifier as a two-party system with a Byzantine prover catalogue and message faults under fixed and re-derived challenges",
+     text="Seeded exploration of FRI instances with the honest prover, a catalogue of Byzantine provers and per-element message faults; holding the challenges fixed isolates every algebraic and Merkle check "
+          "of the verifier from Fiat-Shamir masking.",
+     note="Only delta~1-far deviations are used (random other function, doubled degree); deviations close to a codeword are legitimately accepted with noticeable probability and are not in the catalogue. "
+          "Batched instances are generated so that the folding schedule meets every smaller degree exactly (an assert of the batched prover).")
